@@ -29,6 +29,7 @@ structure Cfg where
   maxHops : Nat := 0
   maxRedirect : Nat := 20
   useSeencheck : Bool := true            -- seen-store opened at start-up (and HQ not used)
+  useHQ : Bool := false                  -- crawl HQ is the queue and the seen-store
 deriving Repr
 
 structure NormRes where
@@ -125,6 +126,28 @@ def seencheck (t : Tree) (items : List Info) (seen : Seen) : Seen × List String
       if !wasSeed && asSeed then ((i.url, true) :: acc.1, acc.2)       -- promotion: seen as asset, now a seed / redirect target
       else (acc.1, i.id :: acc.2)) (seen, [])
 
+/-! crawl HQ as the seen-store: the crawler sends one value per fresh non-seed node of the working depth,
+HQ answers with the values it had not recorded (and records them); every node whose compared
+value is absent from the answer is marked seen. Which field of the URL is sent and which is
+compared are facts of the source. -/
+
+def hqSendKey (S : SF) (i : Info) : String := if S.seenHQSends == "canonical" then i.url else i.raw
+def hqCmpKey (S : SF) (i : Info) : String := if S.seenHQComparesCanonical then i.url else i.raw
+
+/-- crawl HQ's seencheck endpoint -/
+def hqAnswer (hq : Seen) (sent : List String) : Seen × List String :=
+  sent.foldl (fun acc v => if (acc.1.lookup v).isSome then acc else ((v, false) :: acc.1, acc.2 ++ [v])) (hq, [])
+
+def hqSent (S : SF) (items : List Info) : List String :=
+  (items.filter (fun i => i.st == .fresh)).map (hqSendKey S)
+
+/-- `hq.SeencheckItem`: new HQ state and the ids marked seen. The seed itself is never checked. -/
+def hqSeencheck (S : SF) (t : Tree) (items : List Info) (hq : Seen) : Seen × List String :=
+  if S.seenHQSeedNeverChecked && items.all (fun i => (t.parentStatus i.id).isNone) then (hq, [])
+  else
+    let r := hqAnswer hq (hqSent S items)
+    (r.1, (items.filter (fun i => !(r.2.contains (hqCmpKey S i)))).map (·.id))
+
 mutual
 def _root_.Zeno.Model.Item.Tree.setStatuses (ids : List String) (s : Status) (req : Bool) : Tree → Tree
   | .node i k =>
@@ -151,6 +174,7 @@ def finalStep (t2 : Tree) (sr : Seen × List String) (d : Nat) : Tree × Seen ×
 /-- after de-duplication. `crash` = nil dereference of a seen-store that start-up never opened. -/
 def preTail (S : SF) (cfg : Cfg) (seen : Seen) (t2 : Tree) (d : Nat) : Tree × Seen × List String × PreOut :=
   if (t2.atLevel d).isEmpty then (setRoot t2 .completed, seen, [], .ok) else
+  if cfg.useHQ then finalStep t2 (hqSeencheck S t2 (t2.atLevel d) seen) d else
   -- seencheck: guarded by the configuration or not, according to the source
   let consult := S.preSeencheckGuard == "always" || cfg.useSeencheck
   if consult && !cfg.useSeencheck then (t2, seen, [], .crash) else
@@ -168,6 +192,18 @@ def preCore (S : SF) (I : IF) (cfg : Cfg) (norm : String → Option NormRes) (se
   | some (.stop st) => (setRoot t1 st, seen, [], .ok)
   | some _ => (t1, seen, [], .ok)
   | none => preTail S cfg seen (dedupe I t1) d
+
+/-- what `preprocess(seed)` sends to crawl HQ's seencheck endpoint (driver output only) -/
+def preSent (S : SF) (I : IF) (cfg : Cfg) (norm : String → Option NormRes) (t : Tree) : List String :=
+  let d := t.maxDepth
+  let sc := scan cfg norm t (t.atLevel d)
+  let t2 := dedupe I ((t.setNorm sc.2.1).prune sc.1)
+  match sc.2.2 with
+  | none =>
+    let items := t2.atLevel d
+    if !cfg.useHQ || items.isEmpty || (S.seenHQSeedNeverChecked && items.all (fun i => (t2.parentStatus i.id).isNone)) then []
+    else hqSent S items
+  | some _ => []
 
 /-- `preprocess(seed)`: the listed nodes get a request object and become PreProcessed -/
 def preprocess (S : SF) (I : IF) (cfg : Cfg) (norm : String → Option NormRes) (seen : Seen) (t : Tree) :
